@@ -7,7 +7,7 @@ from typing import Dict, List
 
 from ..astutil import arg_of, call_name, calls, enclosing_loops, guards, kwarg, last_attr, stmt_key, txt, walk_local
 from ..cfg import CFG
-from ..flow import bound_from
+from ..flow import bound_from, effective_compare, inline_reaching, path_facts, same_operands
 from ..index import AnalysisError
 from ..kernel import OutsideFragment, decide, parse, rename
 from ..report import Ctx
@@ -107,25 +107,19 @@ def r13_2(ctx: Ctx) -> None:
                detail=f"counterexample {cex2}" if cex2 else f"{n2} orderings", form=txt(end))
     except OutsideFragment as err:
         ctx.cannot("R13.2", REF, ctor[0], "HMMResult.merge", "merged span", str(err))
-    ok = txt(args[3]) == "min(self.evalue, other.evalue)" and txt(args[4]) == "max(self.bitscore, other.bitscore)" \
-        and txt(args[0]) == "self.hit_id"
+    from ..flow import inline_reaching, same_operands
+    mcfg = CFG(func)
+    stmt_of_ctor = next(n for n in walk_local(func) if isinstance(n, ast.stmt) and any(c is ctor[0] for c in ast.walk(n)))
+    best = [inline_reaching(mcfg, stmt_of_ctor, a) for a in args[3:5]]
+    ok = len(best) == 2 and same_operands(best[0], "min", ["self.evalue", "other.evalue"]) \
+        and same_operands(best[1], "max", ["self.bitscore", "other.bitscore"]) and txt(args[0]) == "self.hit_id"
     ctx.ob("R13.2", REF, ctor[0], "HMMResult.merge", "best score", ok,
            "the merged hit carries the best (lowest) e-value and best (highest) score of its fragments", form=txt(ctor[0])[:120])
     # overlap size
     func = ctx.fn(CP, "hsp_overlap_size")
     ret = _single_return(func, skip_guarded_by="\0")
     m2 = {"first.hit_start": "a_s", "first.hit_end": "a_e", "second.hit_start": "b_s", "second.hit_end": "b_e"}
-    expr = ret.value
-    env = {}
-    for name in {n.id for n in ast.walk(expr) if isinstance(n, ast.Name)}:
-        vals = bound_from(func, name)
-        if len(vals) == 1:
-            env[name] = vals[0]
-
-    class Sub(ast.NodeTransformer):
-        def visit_Name(self, node):
-            return env.get(node.id, node)
-    expr = Sub().visit(clone(expr))
+    expr = inline_reaching(CFG(func), ret, ret.value)
     try:
         ok, cex, n = decide(rename(expr, m2), parse("max(0, min(a_e, b_e) - max(a_s, b_s))"), pre=pre)
         ctx.ob("R13.2", CP, ret, "hsp_overlap_size", "kernel", ok, "the overlap size is the size of the intersection (0 if disjoint)",
@@ -269,13 +263,36 @@ def _tracks_last_kept(cfg: CFG, func: ast.AST, loop: ast.For, prev: str, kept: s
 
 
 def r13_4_5(ctx: Ctx) -> None:
+    from ..flow import compares_at, key_function, oriented
     func = ctx.fn(CP, "filter_result_multiple")
-    tests = [n for n in walk_local(func) if isinstance(n, ast.If) and "bitscore" in txt(n.test)]
-    ok = len(tests) == 1 and "query_scores.get(hit.query_id" in txt(tests[0].test) and txt(tests[0].test).endswith("< hit.bitscore") \
-        and any(isinstance(s, ast.Assign) and txt(s.targets[0]) == "query_scores[hit.query_id]" and txt(s.value) == "(i, hit, hit.bitscore)"
-                for s in tests[0].body)
-    ctx.ob("R13.4", CP, tests[0] if tests else func, "filter_result_multiple", "best per profile", ok,
-           "per profile the hit with the maximum score is kept, remembered with its index in the gene's hit list", form="")
+    cfg = CFG(func)
+    # the store `<scores>[<hit>.query_id] = (.., <hit>, <hit>.bitscore)` and the comparison that guards it
+    stores = [n for n in walk_local(func) if isinstance(n, ast.Assign) and isinstance(n.targets[0], ast.Subscript)
+              and isinstance(n.value, ast.Tuple) and txt(n.targets[0].slice).endswith(".query_id")
+              and any(txt(e).endswith(".bitscore") for e in n.value.elts)]
+    ok, form = False, ""
+    if len(stores) == 1:
+        store = stores[0]
+        table, hit = txt(store.targets[0].value), txt(store.targets[0].slice)[:-len(".query_id")]
+        pos = [i for i, e in enumerate(store.value.elts) if txt(e) == f"{hit}.bitscore"]
+        loop = next((l for l in enclosing_loops(store, stop=func)), None)
+        cmps = [oriented(c, lambda e: txt(e) == f"{hit}.bitscore") for c in compares_at(cfg, store, keep={hit}, within=loop)]
+        cmps = [c for c in cmps if c is not None]
+        form = "; ".join(f"{txt(a)} {op} {txt(b)}" for a, op, b in cmps)
+        if len(cmps) == 1 and len(pos) == 1 and cmps[0][1] == ">" and hit in {txt(e) for e in store.value.elts}:
+            other = cmps[0][2]
+            # the remembered score of the same profile, or something below every score when there is none yet
+            if isinstance(other, ast.Subscript) and txt(other.slice) == str(pos[0]) and isinstance(other.value, ast.Call) \
+                    and txt(other.value.func) == f"{table}.get" and len(other.value.args) == 2 \
+                    and txt(other.value.args[0]) == f"{hit}.query_id" and isinstance(other.value.args[1], ast.Tuple) \
+                    and len(other.value.args[1].elts) == len(store.value.elts):
+                default = other.value.args[1].elts[pos[0]]
+                try:
+                    ok = ast.literal_eval(default) < 0
+                except (ValueError, TypeError):
+                    ok = False
+    ctx.ob("R13.4", CP, stores[0] if stores else func, "filter_result_multiple", "best per profile", ok,
+           "per profile the hit with the maximum score is kept, remembered with its index in the gene's hit list", form=form)
     srt = [c for c in calls(func) if call_name(c) == "sorted"]
     ok = False
     if len(srt) == 1 and isinstance(srt[0].args[0], ast.Name) and kwarg(srt[0], "key") is None:
@@ -293,44 +310,97 @@ def r13_4_5(ctx: Ctx) -> None:
     ctx.ob("R13.3", CP, func, "filter_results", "no arbitrary first element", not firsts and not pops and not nexts,
            "the best hit of an overlapping group is not seeded from an arbitrary element of the set",
            form="; ".join(txt(f) for f in firsts + pops + nexts))
-    strict = [n for n in walk_local(func) if isinstance(n, ast.If) and "bitscore" in txt(n.test) and "best" in txt(n.test)]
-    ok = len(strict) == 1 and "hit.bitscore > best.bitscore" in txt(strict[0].test)
-    ctx.ob("R13.3", CP, strict[0] if strict else func, "filter_results", "strict replacement", ok,
-           "the best hit is replaced only by a strictly better score", form=txt(strict[0].test) if strict else "")
-    thr = [n for n in walk_local(func) if isinstance(n, ast.If) and "hsp_overlap_size" in txt(n.test)]
-    ok = len(thr) == 1 and "hsp_overlap_size(hit, otherhit) <= 20" in txt(thr[0].test)
-    ctx.ob("R13.3", CP, thr[0] if thr else func, "filter_results", "overlap threshold", ok,
-           "hits compete only when they overlap by more than 20 positions", form=txt(thr[0].test) if thr else "")
+    cfg = CFG(func)
+    # `best = <loop variable>` inside a loop: the replacement of the group's best hit
+    repl = [n for n in walk_local(func) if isinstance(n, ast.Assign) and isinstance(n.targets[0], ast.Name) and isinstance(n.value, ast.Name)
+            and any(isinstance(l, ast.For) and txt(l.target) == n.value.id for l in enclosing_loops(n, stop=func))]
+    ok, form = False, ""
+    if len(repl) == 1:
+        best, hit = repl[0].targets[0].id, repl[0].value.id
+        loop = enclosing_loops(repl[0], stop=func)[0]
+        cmps = [oriented(c, lambda e: txt(e) == f"{hit}.bitscore") for c in compares_at(cfg, repl[0], keep={best, hit}, within=loop)]
+        cmps = [c for c in cmps if c is not None]
+        form = "; ".join(f"{txt(a)} {op} {txt(b)}" for a, op, b in cmps)
+        ok = len(cmps) == 1 and cmps[0][1] == ">" and txt(cmps[0][2]) == f"{best}.bitscore"
+    ctx.ob("R13.3", CP, repl[0] if repl else func, "filter_results", "strict replacement", ok,
+           "the best hit is replaced only by a strictly better score", form=form)
+    # the pairing of two hits into an overlap group is guarded by overlap size > 20
+    pairs = [n for n in walk_local(func) if isinstance(n, ast.Set) and len(n.elts) == 2 and all(isinstance(e, ast.Name) for e in n.elts)]
+    ok, form = False, ""
+    if len(pairs) == 1:
+        stmt = next(a for a in [pairs[0]] + list(_ancestors(pairs[0])) if isinstance(a, ast.stmt))
+        members = {e.id for e in pairs[0].elts}
+        is_size = lambda e: isinstance(e, ast.Call) and call_name(e) == "hsp_overlap_size" and {txt(a) for a in e.args} == members
+        cmps = [oriented(c, is_size) for c in compares_at(cfg, stmt, keep=members)]
+        cmps = [c for c in cmps if c is not None]
+        form = "; ".join(f"{txt(a)} {op} {txt(b)}" for a, op, b in cmps)
+        ok = len(cmps) == 1 and (cmps[0][1], txt(cmps[0][2])) in ((">", "20"), (">=", "21"))
+    ctx.ob("R13.3", CP, pairs[0] if pairs else func, "filter_results", "overlap threshold", ok,
+           "hits compete only when they overlap by more than 20 positions", form=form)
     # R13.5 running maximum in hmmer.remove_overlapping
     func = ctx.fn(HMMER, "remove_overlapping")
-    extent = "max_current"
-    loops = [n for n in walk_local(func) if isinstance(n, ast.For) and txt(n.iter) == "hits"]
-    if not loops:
+    cfg = CFG(func)
+    # the grouping sweep: the loop that adds its variable to the in-progress set
+    loops = [n for n in walk_local(func) if isinstance(n, ast.For) and isinstance(n.target, ast.Name) and isinstance(n.iter, ast.Name)
+             and any(last_attr(c) == "add" and c.args and txt(c.args[0]) == n.target.id for c in calls(n))]
+    if len(loops) != 1:
         raise AnalysisError("hmmer.remove_overlapping: grouping loop not found")
     loop = loops[0]
-    cfg = CFG(func)
-    adds = [c for c in calls(loop) if txt(c.func) == "current.add"]
+    hit, swept = loop.target.id, loop.iter.id
+    adds = [c for c in calls(loop) if last_attr(c) == "add" and c.args and txt(c.args[0]) == hit]
+    add_stmt = next(a for a in _ancestors(adds[0]) if isinstance(a, ast.stmt))
+    ends = {t.id for n in walk_local(loop) if isinstance(n, ast.Assign) for t in n.targets if isinstance(t, ast.Name)
+            and f"{hit}.protein_end" in txt(n.value)}
+    if len(ends) != 1:
+        raise AnalysisError("hmmer.remove_overlapping: the group's extent local was not found")
+    extent = sorted(ends)[0]
     updates = [n for n in walk_local(loop) if isinstance(n, ast.Assign) and txt(n.targets[0]) == extent]
-    same_group = [u for u in updates if adds and cfg.exists_path(cfg.n(adds[0]), cfg.n(u), avoid=[cfg.n(loop)])
-                  or adds and cfg.exists_path(cfg.n(u), cfg.n(adds[0]), avoid=[cfg.n(loop)])]
-    ok = bool(same_group) and all(txt(u.value) in (f"max({extent}, hit.protein_end)", f"max(hit.protein_end, {extent})") for u in same_group)
+    same_group = [u for u in updates if cfg.exists_path(cfg.n(add_stmt), cfg.n(u), avoid=[cfg.n(loop)])
+                  or cfg.exists_path(cfg.n(u), cfg.n(add_stmt), avoid=[cfg.n(loop)])]
+    base = {(txt(e), t) for e, t in path_facts(cfg, add_stmt)}
+
+    def running_max(update: ast.Assign) -> bool:
+        extra = [(e, t) for e, t in path_facts(cfg, update) if (txt(e), t) not in base]
+        if same_operands(update.value, "max", [extent, f"{hit}.protein_end"]):
+            return not extra
+        if txt(update.value) == f"{hit}.protein_end" and len(extra) == 1:
+            cmp_ = effective_compare(extra[0][0], extra[0][1])
+            cmp_ = oriented(cmp_, lambda e: txt(e) == f"{hit}.protein_end") if cmp_ else None
+            return cmp_ is not None and cmp_[1] in (">", ">=") and txt(cmp_[2]) == extent
+        return False
+    ok = bool(same_group) and all(running_max(u) for u in same_group)
     ctx.ob("R13.5", HMMER, same_group[0] if same_group else loop, "remove_overlapping", "running extent", ok,
            "while hits join the current group its extent is the running maximum of their ends (a short nested hit must not "
            "pull it back)", form="; ".join(stmt_key(u) for u in same_group))
     new_group = [u for u in updates if u not in same_group]
-    ok = len(new_group) == 1 and txt(new_group[0].value) == "hit.protein_end" and \
-        any(pol and extent in txt(t) and "hit.protein_start" in txt(t) for t, pol in guards(new_group[0], stop=loop))
+    ok, form = False, "; ".join(stmt_key(u) for u in new_group)
+    if len(new_group) == 1 and txt(new_group[0].value) == f"{hit}.protein_end":
+        limit = func.args.args[2].arg if len(func.args.args) > 2 else "overlap_limit"
+        mapping = {f"{hit}.protein_start": "S", extent: "E", limit: "L"}
+        conds = []
+        for expr, truth in path_facts(cfg, new_group[0]):
+            if any(a is loop for a in _ancestors(expr)):
+                conds.append(expr if truth else ast.UnaryOp(op=ast.Not(), operand=expr))
+        if conds:
+            cond = conds[0] if len(conds) == 1 else ast.BoolOp(op=ast.And(), values=conds)
+            try:
+                ok, cex, _ = decide(rename(inline_reaching(cfg, new_group[0], cond, keep={extent, hit, limit}), mapping), parse("S > E - L"))
+                form += f" when {txt(cond)}" + (f"; differs at {cex}" if cex else "")
+            except OutsideFragment as err:
+                ok, form = False, form + f" ({err})"
     ctx.ob("R13.5", HMMER, new_group[0] if new_group else loop, "remove_overlapping", "group boundary", ok,
            "a new group starts, and the extent is reset, only when the next hit starts beyond the extent minus the limit",
-           form="; ".join(stmt_key(u) for u in new_group))
+           form=form)
     ok = False
     srt = []
-    for v in bound_from(func, "hits"):
+    for v in bound_from(func, swept):
         srt.append(txt(v))
-        if isinstance(v, ast.Call) and call_name(v) == "sorted" and isinstance(kwarg(v, "key"), ast.Lambda):
-            body = kwarg(v, "key").body
-            first = body.elts[0] if isinstance(body, ast.Tuple) and body.elts else body
-            ok = ok or txt(first).endswith(".protein_start")
+        if isinstance(v, ast.Call) and call_name(v) == "sorted" and kwarg(v, "key") is not None:
+            key = key_function(ctx.repo, HMMER, func, kwarg(v, "key"))
+            if key is not None:
+                param, body = key
+                first = body.elts[0] if isinstance(body, ast.Tuple) and body.elts else body
+                ok = ok or txt(first) == f"{param}.protein_start"
     ctx.ob("R13.5", HMMER, func, "remove_overlapping", "sweep sorted by start", ok,
            "the grouping sweep runs over hits sorted by start (ties may be broken by further keys)", form=str(srt))
     rk = ctx.fn(HMMER, "remove_overlapping.ranking_stats")
